@@ -454,6 +454,9 @@ func evalPlanner(c PCase) (problems []string, n int) {
 		}
 		rk := 0
 		for _, r := range rs {
+			if reBareAlter.MatchString(r) {
+				bad("reverse statement alters nothing: %q (forward: %s)", r, ch.Cmd)
+			}
 			if n := alterClauses(r); n > 0 {
 				rk += n
 			} else {
@@ -466,6 +469,8 @@ func evalPlanner(c PCase) (problems []string, n int) {
 	}
 	return problems, len(plan.Changes)
 }
+
+var reBareAlter = regexp.MustCompile("(?is)^\\s*ALTER\\s+TABLE\\s+(`[^`]+`|\"[^\"]+\"|\\S+)(\\.(`[^`]+`|\"[^\"]+\"))?\\s*;?\\s*$")
 
 var reAlter = regexp.MustCompile("(?is)^\\s*ALTER\\s+TABLE\\s+(`[^`]+`|\"[^\"]+\"|\\S+)(\\.(`[^`]+`|\"[^\"]+\"))?\\s+(.*)$")
 
